@@ -178,6 +178,12 @@ def run(ck: Checker):
 
     with ck.as_rule('C04-9', 'an element the preprocess hook rejects never reaches call(): the hook is looked up on the worker object when the service loop starts (C09-9) — cached by Worker.__init__ it is None for a subclass that installs it after super().__init__(), the rejected element then fails in call() and, with batching, takes its whole batch with it', minimum=2):
         c09.check_preprocess_lookup(ck, 'C09-9')
+    # ------------------------------------------------------------------ C04-10
+    ck.rule('C04-10', 'the outcome of a call is taken apart only after it was tested not to be an exception: an index / unpack of what the user stream yielded (the one-element list of a batch of 1) is guarded by the isinstance test — an exception object is not subscriptable, the TypeError kills the worker loop and every request fails (GUARD)', minimum=1)
+    check_outcome_unpack(ck, 'C04-10')
+    # ------------------------------------------------------------------ C04-11
+    ck.rule('C04-11', 'an input that cannot be pickled fails alone: in the thread that moves accepted inputs into the first process stage, the put that pickles the input is inside a try whose handler for Exception stays in the loop and answers that very request (its id, the wrapped error) on the output queue (EXITS+AGREE)', minimum=1)
+    check_onboarding(ck, 'C04-11')
     # ------------------------------------------------------------------ C04-8
     from . import c02
 
@@ -321,6 +327,84 @@ def check_routing_sinks(ck: Checker, rid: str):
                     clean_value(ck, rid, f, cfg, g, n, c.args[0].id, 'value handed to the user\'s switch()')
                     n3 += 1
         ck.need(n3 >= 1, f'{f.key}: no member put found')
+
+
+def check_outcome_unpack(ck: Checker, rid: str):
+    from .c09 import guard_cfg
+
+    mod = ck.repo.module(WORKER)
+    n_ob = 0
+    for q in ('Worker._start_single', 'Worker._start_batch'):
+        f = mod.func(q)
+        cfg, sc, g = guard_cfg(ck, f, calls=())
+        # the loop over the user stream: `for y in self.stream(...)`
+        loops = [n for n in cfg.nodes if n.kind == 'for' and isinstance(n.ast.iter, ast.Call) and dotted(n.ast.iter.func) == 'self.stream' and isinstance(n.ast.target, ast.Name)]
+        for ln in loops:
+            y = ln.ast.target.id
+            for n in cfg.nodes:
+                if ln.id not in n.loops:
+                    continue
+                a = header_expr(n)
+                if a is None:
+                    continue
+                uses = [x for x in ast.walk(a) if (isinstance(x, ast.Subscript) and is_name(x.value, y) and isinstance(x.ctx, ast.Load))]
+                if isinstance(n.ast, ast.Assign) and isinstance(n.ast.targets[0], (ast.Tuple, ast.List)) and is_name(n.ast.value, y):
+                    uses.append(n.ast.value)
+                if isinstance(n.ast, ast.For) and is_name(n.ast.iter, y):
+                    uses.append(n.ast.iter)
+                it = n.ast.iter if n.kind == 'for' and n is not ln else None
+                if it is not None and any(isinstance(x, ast.Name) and x.id == y for x in ast.walk(it)) and not uses:
+                    uses.append(it)
+                for u in uses:
+                    S = g.at(n.id)
+                    ok = bool(S) and all(any(f_[0] == 'neg' and f_[1] == y and f_[2] in ('Exception', 'BaseException') for f_ in d) or any(f_[0] == 'derived' and f_[1] == y for f_ in d) for d in S)
+                    n_ob += 1
+                    ck.ob(rid, f, n.ast, ok, f'`{norm_text(u)[:40]}` is reached only where `{y}` was tested not to be an exception' if ok else f'`{norm_text(u)[:40]}` takes `{y}` apart on a path where it may be an exception object (the user stream yields the exception of a failed call in place of its result): `TypeError: … is not subscriptable / iterable` ends the worker\'s service loop — the failing request times out instead of getting its error, and so does every other request')
+    ck.need(n_ob >= 1, 'no unpack of a user-stream outcome found in the worker loops')
+
+
+def check_onboarding(ck: Checker, rid: str):
+    from .common import SERVER
+
+    f = ck.repo.func(SERVER, '_enter_server._onboard_input')
+    sc = Scope(f)
+
+    def extra(node, a):
+        # the hand-over into a process queue pickles the request: any Exception (PicklingError, AttributeError, TypeError)
+        return {'Exception'} if any(method_of(c)[1] == 'put' and method_of(c)[0] is not None and sc.canon(method_of(c)[0]) in ('self._q_in',) for c in calls_in(a)) else set()
+
+    cfg = build_cfg(f, ck.repo, make_fallible(sc, iters=set(), calls=set(), extra=extra))
+    ck.analysed_func(f, cfg)
+    puts = [n for n in cfg.nodes if header_expr(n) is not None and any(method_of(c)[1] == 'put' and method_of(c)[0] is not None and sc.canon(method_of(c)[0]) == 'self._q_in' for c in calls_in(header_expr(n)))]
+    ck.need(puts, f'{f.key}: hand-over put not found')
+    gets = [n for n in cfg.nodes if isinstance(n.ast, ast.Assign) and isinstance(n.ast.value, ast.Call) and method_of(n.ast.value)[1] == 'get' and isinstance(n.ast.targets[0], ast.Name)]
+    ck.need(gets, f'{f.key}: dequeue not found')
+    x = gets[0].ast.targets[0].id
+    probs = []
+    for pn in puts:
+        for e in cfg.succ[pn.id]:
+            if e.kind != 'exc':
+                continue
+            dst = cfg.nodes[e.dst]
+            if dst.kind != 'except' or not set(pn.loops) <= set(dst.loops):
+                probs.append(f'a pickling failure of `{norm_text(pn.ast)[:40]}` (L{pn.lineno}) leaves the loop: the thread dies, no later request reaches a worker — every caller times out')
+                continue
+            # the handler answers this request: put((x[0], RemoteException(e))) on the output queue, then goes on
+            body = reachable(cfg, [dst.id], edge_ok=lambda ed: not ed.is_exc)
+            answers = []
+            for k in body:
+                a = header_expr(cfg.nodes[k])
+                for c in (calls_in(a) if a is not None else []):
+                    if method_of(c)[1] == 'put' and c.args and isinstance(c.args[0], ast.Tuple) and len(c.args[0].elts) == 2:
+                        uid_e, pay = c.args[0].elts
+                        if isinstance(uid_e, ast.Subscript) and is_name(uid_e.value, x) and isinstance(uid_e.slice, ast.Constant) and uid_e.slice.value == 0 and isinstance(pay, ast.Call) and (dotted(pay.func) or '').endswith('RemoteException') and pay.args and is_name(pay.args[0], dst.ast.name or ''):
+                            if sc.canon(method_of(c)[0]) in ('self._q_out',):
+                                answers.append(k)
+            if not answers:
+                probs.append(f'the handler at L{dst.lineno} does not answer the request with `({x}[0], RemoteException(<the error>))` on the output queue: its caller only sees a timeout')
+            if cfg.exit_raise in reachable(cfg, [dst.id], edge_ok=lambda ed: True) and any(isinstance(cfg.nodes[k].ast, ast.Raise) for k in body):
+                probs.append(f'the handler at L{dst.lineno} re-raises: the thread dies')
+    ck.ob(rid, f, puts[0].ast, not probs, '; '.join(sorted(set(probs))) if probs else f'a failing hand-over of `{x}` is answered to that request and the loop goes on')
 
 
 def check_all_wrapping(ck: Checker, rid: str):
